@@ -277,7 +277,8 @@ def header_event(inst, rng, prop="C03"):
             target.append(CurveItem(m, u, val, d, data=np.array([0.5, 1.5, 2.5])))
         else:
             target.append(HeaderItem(m, u, val, d))
-    las.other = "first line of other text\nsecond line; with punctuation (and brackets)"
+    las.other = rng.choice(["first line of other text\nsecond line; with punctuation (and brackets)",
+                            "first paragraph\n\nsecond paragraph, after an empty line\n# a line starting with a hash"])
     if rng.random() < 0.3:
         # the object under test is one that lasio READ with this case option (its sections compare case-insensitively)
         try:
